@@ -16,7 +16,7 @@
        (including two orders of one set) with the real values of city.CH64 (checked against the code by
        bin/check C04) and the transcribed Hash128to64 / CH64-over-24-bytes / Bernstein. *)
 From Coq Require Import List ZArith Lia Permutation String Bool.
-From Qryn Require Import model.Fingerprint model.ProtoLabels proofs.FingerprintProofs.
+From Qryn Require Import model.GoQuote model.Fingerprint model.Labels model.ProtoLabels proofs.FingerprintProofs.
 Import ListNotations.
 Open Scope Z_scope.
 
@@ -119,10 +119,12 @@ Proof.
   destruct (Hh x y Ux Uy H) as [H1 H2]. now apply Hch.
 Qed.
 
-(* (4) the facts on a real family. city.CH64 of the six strings (compared with the code on every run of the check) *)
+(* (4) the facts on a real family. city.CH64 of eleven strings (compared with the code on every run of the check) *)
 Definition real_tbl : list (string * Z) :=
   [("app"%string, 12576353548093493342); ("api"%string, 1278387062678664129); ("db"%string, 3655516180604889306);
-   ("env"%string, 17939250081907971096); ("prod"%string, 18271293127389077287); ("dev"%string, 12386325532664887238)].
+   ("env"%string, 17939250081907971096); ("prod"%string, 18271293127389077287); ("dev"%string, 12386325532664887238);
+   ("a.b"%string, 16101271026004631470); ("a_b"%string, 1091222415523631753); ("x"%string, 5748889492429595544);
+   ("type"%string, 14828460315236136068); ("datadog"%string, 18359847025787207198)].
 Definition rl (a b : string) : label := (a, b).
 Definition real_U (x : label) : Prop :=
   x = rl "app" "api" \/ x = rl "app" "db" \/ x = rl "env" "prod" \/ x = rl "env" "dev" \/ x = rl "api" "app".
@@ -177,3 +179,14 @@ Example real_family_nontrivial :
 Proof.
   unfold real_F. split; [tauto|]. split; [tauto|]. split; [discriminate|]. split; [vm_compute; reflexivity|vm_compute; discriminate].
 Qed.
+
+(* ------------------------------------------------------------------ the open finding, on the model with real hash values:
+   the Datadog decoder does not sanitize. The request with ddtags "a.b:x" and the Loki push of {a.b="x", type="datadog"}
+   have the same sanitized label set and different fingerprints (of either type): two series for one label set. *)
+Definition w_dd : wire := WDatadogLogs [("a.b", "x")]%string "" "" "" "".
+Definition w_loki : wire := WSanitized LokiJsonStream [("a.b", "x"); ("type", "datadog")]%string.
+Lemma unsanitizing_decoder_splits_series :
+  Labels.sanitize (wire_labels w_dd) = wire_labels w_loki /\
+  wire_fp (tbl_ch64 real_tbl) hash128to64 fin24 0 w_dd <> wire_fp (tbl_ch64 real_tbl) hash128to64 fin24 0 w_loki /\
+  wire_fp (tbl_ch64 real_tbl) hash128to64 fin_djb 0 w_dd <> wire_fp (tbl_ch64 real_tbl) hash128to64 fin_djb 0 w_loki.
+Proof. split; [reflexivity|]. split; vm_compute; discriminate. Qed.
